@@ -94,8 +94,10 @@ def kernel(rk: Rank, name, t, prep=40, execd=60, gap=2):
     return ts5[4]
 
 
-def chain_allreduce(ranks, gid, t, seq0, nbytes=524288, xfer=50, skew=None):
+def chain_allreduce(ranks, gid, t, seq0, nbytes=524288, xfer=50, skew=None, xseg_step=1):
     """chain allreduce group gid starting at common device time t (per-rank true time = same global time).
+    `xseg_step`: start distance of the per-peer Xseg sends of the multicast (default 1: they overlap, which
+    exhausts the 5-level tid budget of the overlap stage from 6 ranks on; >= 11 keeps them disjoint).
     Returns end time."""
     R = len(ranks)
     cg = f"AllReduce_all_reduce_{gid}"
@@ -129,11 +131,12 @@ def chain_allreduce(ranks, gid, t, seq0, nbytes=524288, xfer=50, skew=None):
                           [post, post, cur, cur, cur + 10], {"CollGroup": cg, "Peers": peers, "Type": "Set BCList"})
     for p in range(R - 1):
         ranks[last].dev_event(f"SenRdmaSend_{sq} - Xseg to rank {p} [sync={sync}] DmaO", TID_SEND,
-                              [post, post, cur + 1 + p, cur + 1 + p, cur + 11 + p],
+                              [post, post, cur + 1 + p * xseg_step, cur + 1 + p * xseg_step, cur + 11 + p * xseg_step],
                               {"CollGroup": cg, "Peer": str(p), "Type": "MultiCast XSEG"})
-    d_end = cur + xfer + 20
+    d_start = cur + 1 + (R - 1) * xseg_step     # == cur + R for the default step
+    d_end = max(cur + xfer + 20, d_start + 12)
     ranks[last].dev_event(f"SenRdmaSend_{sq} Data [sync={sync}] DmaO", TID_SEND,
-                          [post, post, cur + R, cur + R, d_end],
+                          [post, post, d_start, d_start, d_end],
                           {"Bytes": str(nbytes), "CollGroup": cg, "Type": "MultiCast"})
     for p in range(R - 1):
         ranks[p].dev_event(
@@ -143,7 +146,7 @@ def chain_allreduce(ranks, gid, t, seq0, nbytes=524288, xfer=50, skew=None):
     return d_end + 2
 
 
-def build_ranks(R=2, groups=2, freq=512.0, seed=0, dev_epochs=None, host_epochs=None, kernels=3):
+def build_ranks(R=2, groups=2, freq=512.0, seed=0, dev_epochs=None, host_epochs=None, kernels=3, xseg_step=1):
     rnd = random.Random(seed)
     ranks = []
     for r in range(R):
@@ -158,7 +161,7 @@ def build_ranks(R=2, groups=2, freq=512.0, seed=0, dev_epochs=None, host_epochs=
                 tt = kernel(ranks[r], f"mm_{k}", tt + 3)
             ranks[r].host_event("AIU Roundtrip", 77, t, tt + 1)
         t = tt + 10
-        t = chain_allreduce(ranks, g + 1, t, 1000 * (g + 1)) + 10
+        t = chain_allreduce(ranks, g + 1, t, 1000 * (g + 1), xseg_step=xseg_step) + 10
     for r in range(R):
         kernel(ranks[r], "final_9", t + 5)
     return ranks
